@@ -17,7 +17,7 @@ import TypedpyModel.Drive.Convert
 import TypedpyModel.Drive.Errors
 import TypedpyModel.Drive.Sched
 import TypedpyModel.Drive.Pairs
-import TypedpyModel.Drive.Alias
+import TypedpyModel.Drive.Shortcut
 open Lean (Json)
 
 def dispatch (suite : String) (j : Json) : Except String Json :=
@@ -37,7 +37,7 @@ def dispatch (suite : String) (j : Json) : Except String Json :=
   | "errors" => Typedpy.Drive.Errors.run j
   | "sched" => Typedpy.Drive.Sched.run j
   | "pairs" => Typedpy.Drive.Pairs.run j
-  | "alias" => Typedpy.Drive.Alias.run j
+  | "shortcut" => Typedpy.Drive.Shortcut.run j
   | s => .error s!"unknown suite {s}"
 
 def handle (line : String) : String :=
